@@ -1396,6 +1396,29 @@ func (env *SpecEnv) call(x *ast.CallExpr, subs map[string]*SpecExpr) SV {
 				return SV{V: *b.FreshT, T: boolT}
 			}
 			return SV{V: TFalse(), T: boolT}
+		case "was_set", "last_set":
+			// ghost pixel store of a symbolic draw.Image: was Set called for (x, y), and with which colour last
+			as := env.args(x, subs)
+			si, ok := as[0].V.(SymIface)
+			if !ok {
+				sfail("%s: not a symbolic image", id.Name)
+			}
+			cell := vc.ghostImgCell(env.st, si, false)
+			if cell == nil {
+				sfail("%s: the image has no ghost pixel store in this state", id.Name)
+			}
+			g := env.st.mem[cell].(GhostImg)
+			key := vc.pixelKey(env.idxTerm(as[1]), env.idxTerm(as[2]))
+			if id.Name == "was_set" {
+				return SV{V: Select(g.Set, key), T: types.Typ[types.Bool]}
+			}
+			var T types.Type
+			for _, p := range vc.eng.prog.AllPackages() {
+				if p.Pkg.Path() == "image/color" {
+					T = p.Pkg.Scope().Lookup("RGBA64").Type()
+				}
+			}
+			return SV{V: StructVal{F: []Val{Select(g.Ch[0], key), Select(g.Ch[1], key), Select(g.Ch[2], key), Select(g.Ch[3], key)}}, T: T}
 		case "dyn":
 			// dyn(x): the concrete value held by an interface whose dynamic type the scenario fixes
 			a := env.expr(x.Args[0], subs)
